@@ -953,7 +953,7 @@ class Interp:
         """Element i handed out by a `for` loop: a row of a nested list is a list (read-only view, see seqs.RowItem)."""
         e = Q.seq_get(seq, i)
         if Q.is_nested(seq.seq if isinstance(seq, LRef) else seq) and isinstance(e, SSeq):
-            return Q.RowItem(e)
+            return Q.RowItem(e, seq if isinstance(seq, LRef) else None)
         return e
 
     def _entry_snapshot(self, fr):
